@@ -172,6 +172,15 @@ Fixpoint dset (k : Z) (v : val) (d : list (Z * val)) : list (Z * val) :=
   | (k', v') :: t => if Z.eqb k k' then (k, v) :: t else (k', v') :: dset k v t
   end.
 
+(** a dict key given as a number: an integer, or a float with an integral value (hash(2.0) = hash(2) and 2.0 == 2 in Python);
+    [Some None]: a number that cannot be among integer keys *)
+Definition as_key (v : val) : option (option Z) :=
+  match v with
+  | VInt z => Some (Some z)
+  | VNum q => Some (if Qeq_bool (inject_Z (qtrunc q)) q then Some (qtrunc q) else None)
+  | _ => None
+  end.
+
 (** a[i] on a list with Python's negative indices *)
 Definition list_index (l : list val) (i : Z) : pres val :=
   let len := Z.of_nat (List.length l) in
@@ -183,6 +192,11 @@ Definition index_vals (a i : val) : pres val :=
   match a, i with
   | VList l, VInt z => list_index l z
   | VDict d, VInt z => match dget z d with Some v => POk v | None => PErr PKeyError end
+  | VDict d, VNum q =>
+      match as_key (VNum q) with
+      | Some (Some z) => match dget z d with Some v => POk v | None => PErr PKeyError end
+      | _ => PErr PKeyError
+      end
   | _, _ => PErr PTypeError
   end.
 
@@ -250,6 +264,15 @@ Fixpoint map_pres (f : val -> pres val) (items : list val) : pres (list val) :=
       match f item with
       | PErr err => PErr err
       | POk v => match map_pres f rest with POk vs => POk (v :: vs) | PErr err => PErr err end
+      end
+  end.
+Fixpoint dict_range (f : nat -> pres (Z * val)) (is : list nat) (acc : list (Z * val)) : pres (list (Z * val)) :=
+  match is with
+  | [] => POk acc
+  | i :: rest =>
+      match f i with
+      | PErr err => PErr err
+      | POk (kz, vv) => dict_range f rest (dset kz vv acc)
       end
   end.
 Fixpoint dict_enum (f : nat -> val -> pres (Z * val)) (items : list val) (pos : nat) (acc : list (Z * val))
@@ -374,9 +397,10 @@ Fixpoint eval (ex : expr) (e : env) {struct ex} : pres (env * val) :=
           match eval d e1 with
           | PErr x => PErr x
           | POk (e2, VDict dd) =>
-              match vk with
-              | VInt z => POk (e2, VBool (match dget z dd with Some _ => true | None => false end))
-              | _ => PErr PTypeError
+              match as_key vk with
+              | Some (Some z) => POk (e2, VBool (match dget z dd with Some _ => true | None => false end))
+              | Some None => POk (e2, VBool false)
+              | None => PErr PTypeError
               end
           | POk _ => PErr PTypeError
           end
@@ -407,17 +431,21 @@ Fixpoint eval (ex : expr) (e : env) {struct ex} : pres (env * val) :=
   | EPop x k =>
       match eval k e with
       | PErr err => PErr err
-      | POk (e1, VInt z) =>
-          match e1 x with
-          | Some (VDict d) =>
-              match dget z d with
-              | Some v => POk (upd x (VDict (dremove z d)) e1, v)
-              | None => PErr PKeyError
+      | POk (e1, vk) =>
+          match as_key vk with
+          | Some (Some z) =>
+              match e1 x with
+              | Some (VDict d) =>
+                  match dget z d with
+                  | Some v => POk (upd x (VDict (dremove z d)) e1, v)
+                  | None => PErr PKeyError
+                  end
+              | Some _ => PErr PTypeError
+              | None => PErr PUnbound
               end
-          | Some _ => PErr PTypeError
-          | None => PErr PUnbound
+          | Some None => match e1 x with Some (VDict _) => PErr PKeyError | Some _ => PErr PTypeError | None => PErr PUnbound end
+          | None => PErr PTypeError
           end
-      | POk _ => PErr PTypeError
       end
   | EList l =>
       (fix evals (l : list expr) (e : env) : pres (env * val) :=
@@ -440,21 +468,17 @@ Fixpoint eval (ex : expr) (e : env) {struct ex} : pres (env * val) :=
       | POk (e1, VInt cnt) =>
           (* the comprehension has its own scope: x does not leak; k and v are evaluated with x bound; a repeated
              key overwrites in place, as in Python *)
-          match (fix go (is : list nat) (acc : list (Z * val)) : pres (list (Z * val)) :=
-                   match is with
-                   | [] => POk acc
-                   | i :: rest =>
-                       let ei := upd x (VInt (Z.of_nat i)) e1 in
-                       match eval k ei with
-                       | PErr err => PErr err
-                       | POk (_, VInt kz) =>
-                           match eval v ei with
-                           | PErr err => PErr err
-                           | POk (_, vv) => go rest (dset kz vv acc)
-                           end
-                       | POk _ => PErr PTypeError
-                       end
-                   end) (seq 0 (Z.to_nat cnt)) [] with
+          match dict_range (fun i =>
+                              let ei := upd x (VInt (Z.of_nat i)) e1 in
+                              match eval k ei with
+                              | PErr err => PErr err
+                              | POk (_, VInt kz) =>
+                                  match eval v ei with
+                                  | PErr err => PErr err
+                                  | POk (_, vv) => POk (kz, vv)
+                                  end
+                              | POk _ => PErr PTypeError
+                              end) (seq 0 (Z.to_nat cnt)) [] with
           | POk d => POk (e1, VDict d)
           | PErr err => PErr err
           end
